@@ -137,6 +137,7 @@ func cmdExec(args []string) {
 	budget := fs.Int("budget", 600, "wall-clock budget per entry in seconds (0 = none); exceeding it truncates the exploration")
 	freeSched := fs.Bool("freesched", false, "free choice of the next thread at blocking points (default: delay-bounded round-robin)")
 	thorough := fs.Bool("thorough", false, "thorough tier (vThorough() is true)")
+	maxTimers := fs.Int("maxtimers", 6, "bound on timer/ticker firings per path")
 	knownS := fs.String("known", "", "comma-separated ids of open known findings (vKnown)")
 	seed := fs.Int("seed", 0, "solver random seed")
 	cpuprof := fs.String("cpuprofile", "", "write CPU profile")
@@ -170,7 +171,7 @@ func cmdExec(args []string) {
 			os.Exit(3)
 		}
 		cfg := Config{Harness: entry, MaxPaths: *maxPaths, UnwindLimit: *unwind, Preempt: *preempt, StepLimit: *steps,
-			Workers: *workers, SolverBin: *solver, Fallback: splitNE(*fallback), QueryMs: *queryMs, MaxViol: *maxViol, KeepScripts: *cross != "", Witnesses: *witnesses, RelaxTrunc: *relax, PatienceMs: *patience, BudgetS: *budget, FreeSched: *freeSched, Thorough: *thorough, Known: splitNE(*knownS), Seed: *seed, Verbose: *verbose}
+			Workers: *workers, SolverBin: *solver, Fallback: splitNE(*fallback), QueryMs: *queryMs, MaxViol: *maxViol, KeepScripts: *cross != "", Witnesses: *witnesses, RelaxTrunc: *relax, PatienceMs: *patience, BudgetS: *budget, FreeSched: *freeSched, Thorough: *thorough, MaxTimerFires: *maxTimers, Known: splitNE(*knownS), Seed: *seed, Verbose: *verbose}
 		eng := &Engine{prog: prog, cfg: cfg, res: NewResults(), entry: fn}
 		t1 := time.Now()
 		eng.Run()
